@@ -206,9 +206,30 @@ func (t *task) memEnumerate(bg *isaspec.State, probe bool) {
 			if p.t0+63*p.stride+span > vaEnd {
 				continue
 			}
+			// SADDR mode: address = SGPR base + zext(VGPR32) + sext(imm13) in 64-bit
+			// arithmetic. The per-lane 32-bit offsets start at v0; the base is chosen
+			// so that the ISA addresses stay the pattern's (mapped) targets. v0 covers
+			// offsets below |imm| (offset + imm negative), offsets within imm of 2^32
+			// (offset + imm carries out of 32 bits) and ordinary ones.
 			sbases := []uint64{0}
 			if saddr {
-				sbases = []uint64{vaBase, vaBase - 0x1000, p.t0}
+				span63 := 63 * p.stride
+				top := (uint64(1)<<32 - al) - span63
+				v0s := []uint64{0, 4, p.t0 - vaBase - off, top, top - 12, 0x80000000}
+				if int64(off) < 0 {
+					v0s = append(v0s, -off, -off-al, -off+al)
+				} else if off > 0 {
+					v0s = append(v0s, top-off+al)
+				}
+				sbases = sbases[:0]
+				seen := map[uint64]bool{}
+				for _, v0 := range v0s {
+					if v0>>32 != 0 || (v0+span63)>>32 != 0 || seen[v0] {
+						continue
+					}
+					seen[v0] = true
+					sbases = append(sbases, p.t0-v0-off)
+				}
 			}
 			for _, sb := range sbases {
 				for ei, ex := range execs {
